@@ -1082,20 +1082,20 @@ def classify(case):
 
 
 SUBCHECKS = [
-    SubCheck('eval_fixed', fixed_case(), check_fixed, classify, quick=60, thorough=900,
+    SubCheck('eval_fixed', fixed_case(), check_fixed, classify, quick=120, thorough=1200,
              doc='per-RDM evaluations at supplied theta, cov(ddof=0)/n, dof, ceiling on the data'),
     SubCheck('eval_bootstrap', boot_fixed_case('eval_bootstrap', 'both'), check_boot_fixed,
-             classify, quick=60, thorough=900, doc='two-factor bootstrap at supplied theta'),
+             classify, quick=120, thorough=1200, doc='two-factor bootstrap at supplied theta'),
     SubCheck('eval_bootstrap_pattern', boot_fixed_case('eval_bootstrap_pattern', 'pattern'),
-             check_boot_fixed, classify, quick=60, thorough=900, doc='bootstrap over conditions'),
+             check_boot_fixed, classify, quick=120, thorough=1200, doc='bootstrap over conditions'),
     SubCheck('eval_bootstrap_rdm', boot_fixed_case('eval_bootstrap_rdm', 'rdm'),
-             check_boot_fixed, classify, quick=60, thorough=900, doc='bootstrap over RDMs'),
-    SubCheck('crossval', crossval_case(), check_crossval, classify, quick=60, thorough=900,
+             check_boot_fixed, classify, quick=120, thorough=1200, doc='bootstrap over RDMs'),
+    SubCheck('crossval', crossval_case(), check_crossval, classify, quick=120, thorough=1200,
              doc='user-supplied train/test/ceil sets: theta of that fold only, test conditions'),
     SubCheck('bootstrap_crossval', cv_case('bootstrap_crossval'), check_boot_cv, classify,
-             quick=45, thorough=675, doc='k-fold cross-validation inside each bootstrap sample, 3 boot types'),
+             quick=100, thorough=900, doc='k-fold cross-validation inside each bootstrap sample, 3 boot types'),
     SubCheck('eval_dual_bootstrap', cv_case('eval_dual_bootstrap'), check_boot_cv, classify,
-             quick=24, thorough=360, doc='three bootstraps sharing the same draws, cross-validated'),
+             quick=48, thorough=480, doc='three bootstraps sharing the same draws, cross-validated'),
     SubCheck('eval_dual_bootstrap_random', random_cv_case(), check_random_cv, classify,
-             quick=45, thorough=675, doc='random test sets per bootstrap sample'),
+             quick=100, thorough=900, doc='random test sets per bootstrap sample'),
 ]
